@@ -21,6 +21,10 @@ the access controller and the signature check accept (F29) are kept; they are me
 and the trim is asked for only once the listing is longer than the limit (F30) -/
 def loadJoin : List String := ["fetch", "ctxcheck", "headcheck", "ownlog", "held", "canappend", "verify", "merge", "listing", "trim"]
 
+/-- `oneonone` `monitorTopic` (`Connect.monitor`): a message read from the pairwise topic is handed on
+only after the test that its sender is the peer the channel was opened for -/
+def monitorTopic : List String := ["next", "fromtarget", "emit"]
+
 /-- `pubsubcoreapi` `WatchMessages`: the subscription of the underlying pubsub is closed when the
 goroutine that reads it ends (the `defer` precedes the read loop): the node leaves the topic with the
 store (C18, C20) -/
